@@ -42,13 +42,17 @@ def main():
     for a in list(args):
         if a.startswith("--props="):
             only = a.split("=", 1)[1].split(",")
+    tag = ""
+    for a in list(args):
+        if a.startswith("--tag="):
+            tag = a.split("=", 1)[1]
     dirs = [a for a in args if not a.startswith("--")]
     results = []
     for d in dirs:
         d = os.path.abspath(d)
         meta = json.load(open(os.path.join(d, "meta.json"))) if os.path.exists(os.path.join(d, "meta.json")) else {}
         parts = d.rstrip("/").split("/")
-        name = f"{meta.get('property', parts[-3])}-{parts[-1]}" if "_seed" in parts else "-".join(parts[-2:])
+        name = f"{meta.get('property', parts[-3])}-{tag}{parts[-1]}" if "_seed" in parts else "-".join(parts[-2:])
         wt = tempfile.mkdtemp(prefix="seedwt_")
         os.rmdir(wt)
         res = {"seed": name, "property": meta.get("property")}
